@@ -719,11 +719,11 @@ class DataSet:
         # If select() is called without arguments, reset all selections
         reset = 'TFB' if not kwargs else kwargs.pop('reset', 'auto')
         kwargs['spw'] = spw = kwargs.get('spw', self.spw)
-        if spw >= len(self.spectral_windows):
+        if not 0 <= spw < len(self.spectral_windows):
             raise IndexError('Data set has %d spectral window(s): spw should be in range 0..%d, is %d instead' %
                              (len(self.spectral_windows), len(self.spectral_windows) - 1, spw))
         kwargs['subarray'] = subarray = kwargs.get('subarray', self.subarray)
-        if subarray >= len(self.subarrays):
+        if not 0 <= subarray < len(self.subarrays):
             raise IndexError('Data set has %d subarray(s): subarray should be in range 0..%d, is %d instead' %
                              (len(self.subarrays), len(self.subarrays) - 1, subarray))
         # In 'auto' mode, only reset flags for those dimensions that will be affected by selectors
